@@ -95,7 +95,7 @@ def _build(d):
         rets[-1] = 100.0
     if k in (6, 7):
         return {'k': 'IRR', 'root': root, 'returns': rets, 'mode': mode,
-                'orient': d.choice(['c', 'c', 'r'])}
+                'orient': d.choice(['c', 'c', 'r', 'b'])}
     return {'k': 'XIRR', 'root': root, 'returns': rets,
             'dates': _dates(d, n + 1), 'mode': mode,
             'dk': d.choice(['serial', 'serial', 'isotext', 'datef']),
@@ -187,6 +187,23 @@ def _rng(col, n):
 def _place(values, orient, slot):
     """cells + range text + call argument for a vector laid out as a
     column ('c') or a row ('r'); slot 0/1 keeps two vectors apart."""
+    if orient == 'b':
+        # a rectangular BLOCK read in row-major order (when the length has
+        # a divisor 2..4, else a column)
+        n = len(values)
+        w = next((k for k in (3, 2, 4) if n % k == 0 and n > k), None)
+        if w is None:
+            orient = 'c'
+        else:
+            row0, col0 = 60 + 20 * slot, 1
+            cells = {'Sheet1!%s%d' % (num_to_col(col0 + i % w),
+                                      row0 + i // w): v
+                     for i, v in enumerate(values)}
+            rng = '%s%d:%s%d' % (num_to_col(col0), row0,
+                                 num_to_col(col0 + w - 1),
+                                 row0 + n // w - 1)
+            return cells, rng, [list(values[i:i + w])
+                                for i in range(0, n, w)]
     if orient == 'c':
         cells = _col_cells(values, col=slot)
         return cells, _rng(slot, len(values)), [[v] for v in values]
